@@ -121,7 +121,21 @@ def classical_negation(case: dict, failure: dict) -> bool:
     return False
 
 
+def aux_collides_with_out_only_declaration(case: dict, failure: dict) -> bool:
+    """F-outdecl: every clashing predicate is declared as output only and does not occur in the source"""
+    import ast as pyast  # pylint: disable=import-outside-toplevel
+
+    try:
+        clash = {tuple(x) for x in pyast.literal_eval(failure.get("detail", "[]"))}
+    except (ValueError, SyntaxError):
+        return False
+    ins = {tuple(x) for x in case.get("IN", [])} if case.get("IN") != "auto" else set()
+    voc = astutil.vocabulary(_prg(case.get("src", "")))
+    return bool(clash) and not (clash & ins) and not (clash & voc)
+
+
 TRIGGERS: dict[str, Callable[[dict, dict], bool]] = {
+    "aux_collides_with_out_only_declaration": aux_collides_with_out_only_declaration,
     "classical_negation": classical_negation,
     "selfref_equality": selfref_equality,
     "negated_chain": negated_chain,
